@@ -94,6 +94,13 @@ func runCase(c Case) (outs []Outcome, other []string, generatorBug string) {
 			o = Outcome{Class: "inconclusive", Detail: e.Model}
 		case e.Outcome == "reaches-rejected":
 			o = Outcome{Class: "reaches-rejected", Detail: e.Model}
+		case e.EvalOrder && !isItem:
+			// a generated base whose entry depends on the order in which the operands of a pair or an
+			// operator are evaluated (a closure call next to a read of the variable it updates): the
+			// listed finding evalOrder, and for call-versus-variable-read not even fixed by the Go
+			// specification. C01 counts these the same way (entry:known-eval-order).
+			o = Outcome{Class: "known-eval-order", Detail: e.Go}
+			ev.Label("base entry: known evaluation-order disagreement")
 		case e.EvalOrder:
 			o = Outcome{Class: "MISTRANSLATED", Detail: fmt.Sprintf("evaluation order: Go %s, GooseLang (right-to-left) %s", e.Go, e.Model)}
 		default:
